@@ -46,7 +46,7 @@ CLAIMS = {
          "trace label format taken from the implementation (DESIGN.md §9)",
          "deterministic simulation: fault placement along generated call histories, stream interleaving under the shim, call-stack model"),
  "C18": ("exploration", "DESIGN.md §4 C18",
-         "Three-step pipeline (compile raw-text, transpile, execute) versus `run` over corpus, generators and the exhaustive argument-string enumeration, all three processes behind the shim (short/EINTR, dirty output file, hash seeds); oracle: stdout and exit class equal, instruction streams equal; plus a hand-written file naming every instruction of the table.",
+         "Three-step pipeline (compile raw-text, transpile, execute) versus `run` over corpus, generators and the exhaustive argument-string enumeration, all three processes behind the shim (short/EINTR, dirty output file, hash seeds); oracle: stdout and exit class equal, instruction streams equal; plus a hand-written file naming every instruction of the table. Text-route histories: compile to text, rename, transpile, execute, `execute --transpile`, edits of the source between, binary compiles, clean, and commands killed at their k-th write/read/open on one long-lived single-module project under five file-time policies; oracle: a revision model (the executed binary prints what the revision its text form was written from prints).",
          "as C04",
          "deterministic simulation: libc fault-injection shim over the transpile pipeline, differential oracle"),
  "C19": ("fault_enumeration", "DESIGN.md §4 C19",
